@@ -16,6 +16,8 @@ func c04pool() []Bind {
 	return []Bind{
 		{"vnil", vNil()}, {"vt", vBool(true)}, {"vf", vBool(false)}, {"vi", vInt(3)}, {"vz", vInt(0)}, {"vneg", vInt(-2)},
 		{"vfl", vFloat("1.5")}, {"vs", vStr("str")}, {"vre", vStr("(")}, {"vre2", vStr("a[")}, {"ve", vStr("")}, {"vh", vHTML("<b>")},
+		// value-dependent paths of the helpers: longer than the default sizes, multi-byte
+		{"vlong", vStr(strings.Repeat("世", 20))}, {"vlonga", vStr(strings.Repeat("ab<", 24))},
 		{"vxs", vSlice("iface", vInt(1), vStr("a"))}, {"vxe", vSlice("iface")}, {"vss", vSlice("string", vStr("a"), vStr("b"))}, {"vis", vSlice("int", vInt(1), vInt(2))},
 		{"vts", vSlice("T0", vT0("e0"))},
 		{"vm", vMap("string", "iface", vStr("a"), vInt(1))}, {"vmi", vMap("string", "int", vStr("a"), vInt(1))}, {"vms", vMap("string", "string", vStr("a"), vStr("x"))},
@@ -68,7 +70,7 @@ func init() {
 	register("C04", func(e *Env) {
 		renderPrelude()
 		e.perShard = 60
-		e.rep.Rule = "matrices over a pool of 29 modelled value kinds (+26 Go-only kinds judged by the panic oracle alone): (operator x left x right), (container x index x assigned value), (receiver x member/method), iterables, (callee x argument lists), (built-in x argument kinds); plus random programs; every case runs under recover + watchdog, modelled cases are also re-evaluated by the Coq model; non-trivial = evaluation reached (parsed OK); distinct by template"
+		e.rep.Rule = "matrices over a pool of 29 modelled value kinds (+26 Go-only kinds judged by the panic oracle alone): (operator x left x right), (container x index x assigned value), (receiver x member/method), iterables, (callee x argument lists), (built-in x argument kinds, + long and multi-byte string values with sizes around the helpers' defaults); plus random programs; every case runs under recover + watchdog, modelled cases are also re-evaluated by the Coq model; non-trivial = evaluation reached (parsed OK); distinct by template"
 		pool := c04pool()
 		names := []string{}
 		for _, b := range pool {
@@ -195,6 +197,10 @@ func init() {
 			}
 			for _, x := range xnames {
 				e.c04case("builtinx", fmt.Sprintf("<%%= %s(%s) %%><%%= %s(1, %s) %%>", b, x, b, x), false, extra)
+			}
+			// value-dependent paths: strings longer than the helpers' default sizes, multi-byte
+			for _, al := range []string{"vlong", "vlonga", "vlong, {size: 45}", `vlong, {size: 45, trail: ""}`, "vlong, {size: 21}", "vlong, {size: 19, trail: vlong}", "vlonga, {size: 70, trail: vlong}", "vlonga, {size: 71}", `vlong + vlonga, {size: 64}`, "2, vlong", "vlong, vlonga"} {
+				e.c04case("builtin-long", fmt.Sprintf("<%%= %s(%s) %%>", b, al), false, nil)
 			}
 		}
 		// cyclic data built by the template itself: runs in a subprocess because a
